@@ -390,9 +390,19 @@ func (i *Iterator) Prev(ctx context.Context, span telem.TimeSpan) (ok bool) {
 		return
 	}
 
-	for i.internal.Prev() &&
-		i.accumulate(ctx) &&
-		!i.satisfied() {
+	for i.internal.Prev() {
+		if !i.accumulate(ctx) {
+			// Mirror of Next: the domain iterator has moved to a domain that lies
+			// entirely before the view; step forward again so the next call starts from
+			// the domain that covers the start of this view.
+			if i.err == nil {
+				i.internal.Next()
+			}
+			break
+		}
+		if i.satisfied() {
+			break
+		}
 	}
 	return
 }
